@@ -243,14 +243,26 @@ impl Ctx {
 
     /// Run one case. `desc` is only evaluated when tracing, sampling or on a violation.
     pub fn case<D: Fn() -> String>(&mut self, desc: D, body: impl FnOnce(&mut Case)) {
+        self.case_impl(desc, body, false)
+    }
+
+    /// A case whose result later cases depend on (e.g. a counting run): its body is executed even
+    /// when a replay / resume skips it, but it is only recorded when it is selected.
+    pub fn pilot_case<D: Fn() -> String>(&mut self, desc: D, body: impl FnOnce(&mut Case)) {
+        self.case_impl(desc, body, true)
+    }
+
+    fn case_impl<D: Fn() -> String>(&mut self, desc: D, body: impl FnOnce(&mut Case), pilot: bool) {
         let no = self.case_no;
         self.case_no += 1;
-        if let Some(only) = self.only_case {
-            if only != no {
-                return;
+        let selected = self.only_case.map_or(true, |o| o == no) && no >= self.start_case;
+        if !selected {
+            if pilot {
+                ledger::reset();
+                let mut c = Case { fails: Vec::new(), nontrivial: None, outcome: "", state: None, transitions: 0, traces: 0, tier: self.tier, profile: self.profile };
+                let _ = catch_unwind(AssertUnwindSafe(|| body(&mut c)));
+                let _ = galloc::take_errors();
             }
-        }
-        if no < self.start_case {
             return;
         }
         PROGRESS.fetch_add(1, Ordering::Relaxed);
